@@ -12,6 +12,7 @@ import (
 	"strconv"
 	"strings"
 	"time"
+	"unsafe"
 )
 
 type replayFile struct {
@@ -141,6 +142,9 @@ func Assert(label string, c bool) {
 // Lemma is an assertion whose fact the executor may use afterwards on the same path (cut rule).
 func Lemma(label string, c bool) { Assert(label, c) }
 
+// LemmaEqF is AssertEqF whose proven equality the executor uses as a rewrite in later queries.
+func LemmaEqF(label string, got, want float64) { AssertEqF(label, got, want) }
+
 func AssertEqF(label string, got, want float64) {
 	if math.IsNaN(want) || math.IsInf(want, 0) {
 		return // reference undefined here: nothing is required of the implementation
@@ -245,6 +249,37 @@ func Dims(t any) []int {
 		out[i] = int(d.Index(i).Int())
 	}
 	return out
+}
+
+// setRO stores x into a value reached through unexported fields.
+func setRO(v reflect.Value, x reflect.Value) {
+	reflect.NewAt(v.Type(), unsafe.Pointer(v.UnsafeAddr())).Elem().Set(x)
+}
+
+// Abstract replaces every element of the tensor by the nondet value prefix_k (k = row-major index):
+// the object, its shape and its grad context stay the ones the real code produced.
+func Abstract(t any, prefix string) {
+	Load()
+	n := 0
+	var walk func(v reflect.Value)
+	walk = func(v reflect.Value) {
+		e := v
+		if e.Kind() == reflect.Interface {
+			e = e.Elem()
+		}
+		switch e.Kind() {
+		case reflect.Float64:
+			setRO(v, reflect.ValueOf(Float(prefix, n)))
+			n++
+		case reflect.Slice:
+			for i := 0; i < e.Len(); i++ {
+				walk(e.Index(i))
+			}
+		default:
+			panic("vrt.Abstract: unexpected data kind " + e.Kind().String())
+		}
+	}
+	walk(tstruct(t).FieldByName("data"))
 }
 
 func gctx(t any) reflect.Value {
